@@ -1,9 +1,12 @@
 (* C13 — Built-in matching functions implement their documented pattern languages.
    Only statements here; proofs are `exact <lemma>`.  Models: KeyMatch.v Glob.v IpMatch.v
-   (glob_match is the function WITH fixes/C13-glob-star.diff applied). *)
+   (glob_match is the function WITH fixes/C13-glob-star.diff applied); specs: km_lang, seg_lang
+   over Lit | Seg | Rest items, bindd/inst (KeyBind.v), glob_lang, block arithmetic.
+   Documented form = the boolean predicates doc2 doc3 doc5 (strings), wf2 wf4 star_last (tokens),
+   citem_ok (classes), ip_doc; keys without newline (key_ok). *)
 From Coq Require Import List NArith Bool.
-From PyCasbin Require Import Base PatBase KeyMatch Glob IpMatch
-  KeyMatchProofs GlobProofs IpMatchProofs.
+From PyCasbin Require Import Base PatBase KeyMatch KeyBind Glob IpMatch
+  KeyMatchProofs KeyMatchRegexProofs KeyBindProofs GlobProofs IpMatchProofs.
 Import ListNotations.
 Local Open Scope N_scope.
 
@@ -21,6 +24,88 @@ Print Assumptions C13_key_get_is_remainder.
 Theorem C13_key_get_no_match : forall k p, key_match k p = false -> key_get k p = [].
 Proof. exact key_get_no_match. Qed.
 Print Assumptions C13_key_get_no_match.
+
+(* ---------------------------------------------------------------- keyMatch2/3/5 : every documented-form pattern, every key
+   (the modelled pipeline replace -> re.sub -> regex parse -> backtracking match is the segment language) *)
+Theorem C13_seg_match_iff : forall its s, seg_match its s = true <-> seg_lang its s.
+Proof. exact seg_match_iff. Qed.
+Print Assumptions C13_seg_match_iff.
+
+Theorem C13_km2_iff : forall p k, doc2 p = true -> key_ok k = true ->
+  key_match2 k p = Ok (seg_match (parse2 p) k).
+Proof. exact km2_iff. Qed.
+Print Assumptions C13_km2_iff.
+
+Theorem C13_km2_star : forall k, key_ok k = true -> key_match2 k [cSTAR] = Ok true.
+Proof. exact km2_star. Qed.
+Print Assumptions C13_km2_star.
+
+Theorem C13_km3_iff : forall p k, doc3 p = true -> key_ok k = true ->
+  key_match3 k p = Ok (seg_match (parse3 p) k).
+Proof. exact km3_iff. Qed.
+Print Assumptions C13_km3_iff.
+
+(* keyMatch5 ignores the query string *)
+Theorem C13_km5_iff : forall p k, doc5 p = true -> key_ok k = true ->
+  key_match5 k p = Ok (seg_match (parse5 p) (before_qm k)).
+Proof. exact km5_iff. Qed.
+Print Assumptions C13_km5_iff.
+
+(* the same three on token lists: the documented form is the image of render on well-formed tokens *)
+Theorem C13_km2_tokens : forall t k, wf2 t = true -> no_nl k ->
+  key_match2 k (render false t) = Ok (seg_match (items_of t) k).
+Proof. exact km2_tokens. Qed.
+Print Assumptions C13_km2_tokens.
+
+Theorem C13_km3_tokens : forall t k, wf3 t = true -> no_nl k ->
+  key_match3 k (render true t) = Ok (seg_match (items_of t) k).
+Proof. exact km3_tokens. Qed.
+Print Assumptions C13_km3_tokens.
+
+Theorem C13_km5_tokens : forall t k, wf5 t = true -> no_nl k ->
+  key_match5 k (render true t) = Ok (seg_match (items_of t) (before_qm k)).
+Proof. exact km5_tokens. Qed.
+Print Assumptions C13_km5_tokens.
+
+(* ---------------------------------------------------------------- keyGet2 / keyMatch4 : '/'-delimited variables, final '/*'
+   (the decomposition of the key is then unique: bindd) *)
+Theorem C13_key_get2_binds_partial : forall t k v, get2_doc t = true -> no_nl k ->
+  key_get2 k (render false t) v = Ok (get2_spec t k v).
+Proof. exact key_get2_tokens. Qed.
+Print Assumptions C13_key_get2_binds_partial.
+
+Theorem C13_km4_iff_partial : forall t k, wf4 t = true -> star_last t = true -> no_nl k ->
+  key_match4 k (render true t) = Ok (km4_bind_spec t k).
+Proof. exact key_match4_tokens. Qed.
+Print Assumptions C13_km4_iff_partial.
+
+(* the same two on strings *)
+Theorem C13_key_get2_iff_partial : forall p k v, get2_docs p = true -> key_ok k = true ->
+  key_get2 k p v = Ok (get2_spec (tokens2 p) k v).
+Proof. exact key_get2_iff. Qed.
+Print Assumptions C13_key_get2_iff_partial.
+
+Theorem C13_km4_string_iff_partial : forall p k, doc4s p = true -> key_ok k = true ->
+  key_match4 k p = Ok (km4_bind_spec (tokens5 p) k).
+Proof. exact km4_iff. Qed.
+Print Assumptions C13_km4_string_iff_partial.
+
+(* key_match4's dict loop = repeated names bound to equal texts *)
+Theorem C13_km4_consistent : forall names vals, km4_check names vals [] = consistent names vals.
+Proof. exact km4_consistent. Qed.
+Print Assumptions C13_km4_consistent.
+
+(* bindd t k = Some vs exactly when k is the pattern with the segment texts vs written for its variables *)
+Theorem C13_bindd_complete : forall t vs tail, wf2 t = true -> star_last t = true ->
+  length vs = length (var_names t) -> Forall is_seg vs ->
+  bindd t (inst t vs tail) = Some vs.
+Proof. exact bindd_complete. Qed.
+Print Assumptions C13_bindd_complete.
+
+Theorem C13_bindd_sound : forall t k vs, star_last t = true -> bindd t k = Some vs ->
+  exists tail, k = inst t vs tail /\ Forall is_seg vs.
+Proof. exact bindd_sound. Qed.
+Print Assumptions C13_bindd_sound.
 
 (* ---------------------------------------------------------------- globMatch (repaired): every string, every pattern *)
 Theorem C13_glob_total : forall s p, exists b, glob_match s p = Ok b.
@@ -42,7 +127,7 @@ Proof. exact class_doc. Qed.
 Print Assumptions C13_glob_class_doc.
 
 (* the function as it stands in the unrepaired tree accepts strings outside the language and
-   rejects strings inside it (finding F13) *)
+   rejects strings inside it (finding C13/glob-star) *)
 Theorem C13_glob_unrepaired_refuted :
   (exists s p, glob_match_unrepaired s p = Ok true /\ ~ glob_lang p s) /\
   (exists s p, glob_match_unrepaired s p = Ok false /\ glob_lang p s).
@@ -73,6 +158,27 @@ Example C13_example_key_get :
   key_match [47;102;111;111;47;98;97;114] [47;102;111;111;47;42] = true /\
   key_get [47;102;111;111;47;98;97;114] [47;102;111;111;47;42] = [98;97;114].
 Proof. vm_compute. split; reflexivity. Qed.
+
+(* "/p/:id/*" is documented for keyMatch2, "/p/{id}/*" for keyMatch3/5; "/p/7/x/y" matches, "/p/7" does not;
+   key_get2 binds id to "7" *)
+Example C13_example_km :
+  doc2 [47;112;47;58;105;100;47;42] = true /\ doc3 [47;112;47;123;105;100;125;47;42] = true /\
+  doc5 [47;112;47;123;105;100;125;47;42] = true /\
+  key_match2 [47;112;47;55;47;120;47;121] [47;112;47;58;105;100;47;42] = Ok true /\
+  key_match2 [47;112;47;55] [47;112;47;58;105;100;47;42] = Ok false /\
+  key_match3 [47;112;47;55;47;120;47;121] [47;112;47;123;105;100;125;47;42] = Ok true /\
+  key_match5 [47;112;47;55;47;120;63;113;61;47] [47;112;47;123;105;100;125;47;42] = Ok true /\
+  get2_doc (tokens2 [47;112;47;58;105;100;47;42]) = true /\
+  key_get2 [47;112;47;55;47;120;47;121] [47;112;47;58;105;100;47;42] [105;100] = Ok [55].
+Proof. vm_compute. repeat split; reflexivity. Qed.
+
+(* "/a/{x}/b/{x}" : "/a/1/b/1" matches, "/a/1/b/2" does not *)
+Example C13_example_km4 :
+  wf4 (tokens5 [47;97;47;123;120;125;47;98;47;123;120;125]) = true /\
+  star_last (tokens5 [47;97;47;123;120;125;47;98;47;123;120;125]) = true /\
+  key_match4 [47;97;47;49;47;98;47;49] [47;97;47;123;120;125;47;98;47;123;120;125] = Ok true /\
+  key_match4 [47;97;47;49;47;98;47;50] [47;97;47;123;120;125;47;98;47;123;120;125] = Ok false.
+Proof. vm_compute. repeat split; reflexivity. Qed.
 
 (* glob: "/foobar" ~ "/foo[!x-z]*r", "a/b" !~ "a*b", "aXc" !~ "a*b" *)
 Example C13_example_glob :
